@@ -30,7 +30,7 @@ func init() {
 			{Name: "lag", Variant: "plain", N: core.Tiered(13*20+100, 13*20+30000), Run: c11Lag},
 		},
 		RequireTags: func(string) []string {
-			return []string{"sr:path1", "sr:path2", "sr:path4", "sr:path6", "lag:lag>len", "musk:steady", "musk:event", "musk:windows"}
+			return []string{"sr:path1", "sr:path2", "sr:path4", "sr:path6", "lag:lag>len", "lag:padded-row", "musk:steady", "musk:event", "musk:windows"}
 		},
 	})
 }
@@ -325,6 +325,12 @@ func c11Lag(c *core.Ctx) {
 	for i := range buf {
 		buf[i] = float64(1000 + i) // unique ids
 	}
+	// the state row may be wider than the lag (rows of a multi-cell state array are padded to the widest cell)
+	rowPad := 0
+	if chained && c.R.Bool(0.5) {
+		rowPad = c.R.IntRange(1, 5)
+		c.Tag("lag:padded-row")
+	}
 	nseg := 1
 	if chained {
 		nseg = c.R.IntRange(2, 5)
@@ -341,7 +347,7 @@ func c11Lag(c *core.Ctx) {
 			series = append(series, float64(len(series)+1))
 		}
 	}
-	c.Begin(map[string]interface{}{"model": model, "lag": lag, "segment_lengths": lens, "initial_buffer": buf, "inflow": "1,2,3,... (unique ids)"})
+	c.Begin(map[string]interface{}{"model": model, "lag": lag, "segment_lengths": lens, "initial_buffer": buf, "state_row_padding": rowPad, "inflow": "1,2,3,... (unique ids)"})
 	c.Class(fmt.Sprintf("lag%d/T%d/seg%d", lag, T, nseg))
 	if lag > T {
 		c.Tag("lag:lag>len")
@@ -351,7 +357,7 @@ func c11Lag(c *core.Ctx) {
 	}
 	// reference: whole history = buffer ++ inflow ; out[t] = hist[t]
 	hist := append(append([]float64{}, buf...), series...)
-	states := [][]float64{append([]float64{}, buf...)}
+	states := [][]float64{append(append([]float64{}, buf...), make([]float64, rowPad)...)}
 	pos := 0
 	for s, l := range lens {
 		in := series[pos : pos+l]
